@@ -12,29 +12,29 @@ Open Scope N_scope.
    given a complete stream whose bytes hash to the link; the node returned is what the link's
    decoder makes of exactly those bytes, the raw bytes returned are exactly those bytes. *)
 Theorem C06_sound :
-  forall (hasher_ok : N -> bool) (hash : N -> bytes -> bytes) (codecs : N -> option codec),
-    registry_consumes_all codecs ->
+  forall (hasher_ok : N -> bool) (hash : N -> bytes -> bytes) (decoders : N -> option codec),
+    registry_consumes_all decoders ->
     forall (f : lform) (ro : ropen) (l : link),
-      lo_status (load_any hasher_ok hash codecs f false ro l) = SOk ->
+      lo_status (load_any hasher_ok hash decoders f false ro l) = SOk ->
       exists chunks : list bytes,
         ro = RStream chunks TEof /\
         verify hash l (concat chunks) = VOk /\
         (forall n : dm,
-            lo_node (load_any hasher_ok hash codecs f false ro l) = Some n ->
+            lo_node (load_any hasher_ok hash decoders f false ro l) = Some n ->
             exists (c : codec) (p : N) (e : bool),
-              codecs (lp_codec (link_proto l)) = Some c /\ c_dec c (concat chunks) = Some (n, p, e)) /\
+              decoders (lp_codec (link_proto l)) = Some c /\ c_dec c (concat chunks) = Some (n, p, e)) /\
         (forall raw : bytes,
-            lo_raw (load_any hasher_ok hash codecs f false ro l) = Some raw -> raw = concat chunks).
+            lo_raw (load_any hasher_ok hash decoders f false ro l) = Some raw -> raw = concat chunks).
 Proof. exact sound. Qed.
 Print Assumptions C06_sound.
 
 (* the same in link terms: BuildLink of the link's own prototype over the hash of the delivered
    bytes has the binary form of the requested link *)
 Theorem C06_sound_binary :
-  forall (hasher_ok : N -> bool) (hash : N -> bytes -> bytes) (codecs : N -> option codec),
-    registry_consumes_all codecs ->
+  forall (hasher_ok : N -> bool) (hash : N -> bytes -> bytes) (decoders : N -> option codec),
+    registry_consumes_all decoders ->
     forall (f : lform) (ro : ropen) (l : link),
-      lo_status (load_any hasher_ok hash codecs f false ro l) = SOk ->
+      lo_status (load_any hasher_ok hash decoders f false ro l) = SOk ->
       exists (chunks : list bytes) (l2 : link),
         ro = RStream chunks TEof /\
         build_link (link_proto l) (hash (lp_mhtype (link_proto l)) (concat chunks)) = Some l2 /\
@@ -51,11 +51,11 @@ Proof. exact link_binary_inj. Qed.
 Print Assumptions C06_link_binary_inj.
 
 Theorem C06_sound_eq :
-  forall (hasher_ok : N -> bool) (hash : N -> bytes -> bytes) (codecs : N -> option codec),
+  forall (hasher_ok : N -> bool) (hash : N -> bytes -> bytes) (decoders : N -> option codec),
     (forall mht bs, u64 (lenN (hash mht bs))) ->
-    registry_consumes_all codecs ->
+    registry_consumes_all decoders ->
     forall (f : lform) (ro : ropen) (l : link), wf_link l ->
-      lo_status (load_any hasher_ok hash codecs f false ro l) = SOk ->
+      lo_status (load_any hasher_ok hash decoders f false ro l) = SOk ->
       exists chunks : list bytes,
         ro = RStream chunks TEof /\
         build_link (link_proto l) (hash (lp_mhtype (link_proto l)) (concat chunks)) = Some l.
@@ -64,116 +64,178 @@ Print Assumptions C06_sound_eq.
 
 (* LoadRaw and LoadPlusRaw verify the hash even under TrustedStorage *)
 Theorem C06_raw_forms_ignore_trust :
-  forall (hasher_ok : N -> bool) (hash : N -> bytes -> bytes) (codecs : N -> option codec)
+  forall (hasher_ok : N -> bool) (hash : N -> bytes -> bytes) (decoders : N -> option codec)
          (f : lform) (trusted : bool) (ro : ropen) (l : link),
     f = FLoadRaw \/ f = FLoadPlusRaw ->
-    load_any hasher_ok hash codecs f trusted ro l = load_any hasher_ok hash codecs f false ro l.
+    load_any hasher_ok hash decoders f trusted ro l = load_any hasher_ok hash decoders f false ro l.
 Proof. exact raw_forms_ignore_trust. Qed.
 Print Assumptions C06_raw_forms_ignore_trust.
 
 (* bytes that do not hash to the link, no I/O error: hash mismatch from every load form, whatever
    the decoder does with them *)
 Theorem C06_precedence :
-  forall (hasher_ok : N -> bool) (hash : N -> bytes -> bytes) (codecs : N -> option codec),
-    registry_consumes_all codecs ->
+  forall (hasher_ok : N -> bool) (hash : N -> bytes -> bytes) (decoders : N -> option codec),
+    registry_consumes_all decoders ->
     forall (f : lform) (chunks : list bytes) (l : link) (c : codec),
-      codecs (lp_codec (link_proto l)) = Some c ->
+      decoders (lp_codec (link_proto l)) = Some c ->
       hasher_ok (lp_mhtype (link_proto l)) = true ->
       verify hash l (concat chunks) = VMismatch ->
-      load_any hasher_ok hash codecs f false (RStream chunks TEof) l = lfail EHashMismatch.
+      load_any hasher_ok hash decoders f false (RStream chunks TEof) l = lfail EHashMismatch.
 Proof. exact precedence. Qed.
 Print Assumptions C06_precedence.
 
 (* an error from the read opener is returned as such, trusted or not *)
 Theorem C06_io_open :
-  forall (hasher_ok : N -> bool) (hash : N -> bytes -> bytes) (codecs : N -> option codec)
+  forall (hasher_ok : N -> bool) (hash : N -> bytes -> bytes) (decoders : N -> option codec)
          (f : lform) (trusted : bool) (l : link) (c : codec),
-    codecs (lp_codec (link_proto l)) = Some c ->
+    decoders (lp_codec (link_proto l)) = Some c ->
     hasher_ok (lp_mhtype (link_proto l)) = true ->
-    load_any hasher_ok hash codecs f trusted ROpenErr l = lfail EOpen.
+    load_any hasher_ok hash decoders f trusted ROpenErr l = lfail EOpen.
 Proof. exact io_open. Qed.
 Print Assumptions C06_io_open.
 
 (* a read error at any offset of the stream is returned as the I/O error by an untrusted load *)
 Theorem C06_io_read :
-  forall (hasher_ok : N -> bool) (hash : N -> bytes -> bytes) (codecs : N -> option codec),
-    registry_consumes_all codecs ->
+  forall (hasher_ok : N -> bool) (hash : N -> bytes -> bytes) (decoders : N -> option codec),
+    registry_consumes_all decoders ->
     forall (f : lform) (chunks : list bytes) (l : link) (c : codec),
-      codecs (lp_codec (link_proto l)) = Some c ->
+      decoders (lp_codec (link_proto l)) = Some c ->
       hasher_ok (lp_mhtype (link_proto l)) = true ->
-      load_any hasher_ok hash codecs f false (RStream chunks TErr) l = lfail EIo.
+      load_any hasher_ok hash decoders f false (RStream chunks TErr) l = lfail EIo.
 Proof. exact io_read. Qed.
 Print Assumptions C06_io_read.
 
 (* ... and never yields Ok, a node or bytes, in any configuration (trusted, unknown codec, ...) *)
 Theorem C06_io :
-  forall (hasher_ok : N -> bool) (hash : N -> bytes -> bytes) (codecs : N -> option codec),
-    registry_consumes_all codecs ->
+  forall (hasher_ok : N -> bool) (hash : N -> bytes -> bytes) (decoders : N -> option codec),
+    registry_consumes_all decoders ->
     forall (f : lform) (trusted : bool) (ro : ropen) (l : link),
       ro = ROpenErr \/ (exists chunks : list bytes, ro = RStream chunks TErr) ->
-      let o := load_any hasher_ok hash codecs f trusted ro l in
+      let o := load_any hasher_ok hash decoders f trusted ro l in
       lo_status o <> SOk /\ lo_node o = None /\ lo_raw o = None.
 Proof. exact io_never_ok. Qed.
 Print Assumptions C06_io.
 
 (* a store that does not report success (encoder refused the value, open/commit failure, reported
-   write failure, BuildLink panic) leaves the storage unchanged *)
+   write failure, BuildLink panic) leaves the storage unchanged — with or without the write-error
+   latch in Store *)
 Theorem C06_store_atomic :
-  forall (hasher_ok : N -> bool) (hash : N -> bytes -> bytes) (codecs : N -> option codec)
-         (sk : skind) (w : wbeh) (st : storage) (lp : lproto) (v : dm) (s : sout) (st' : storage),
-    store hasher_ok hash codecs sk w st lp v = (s, st') -> so_status s <> SOk -> st' = st.
+  forall (hasher_ok : N -> bool) (hash : N -> bytes -> bytes) (encoders : N -> option codec)
+         (latch : bool) (sk : skind) (w : wbeh) (st : storage) (lp : lproto) (v : dm) (s : sout) (st' : storage),
+    store hasher_ok hash encoders latch sk w st lp v = (s, st') -> so_status s <> SOk -> st' = st.
 Proof. exact store_atomic. Qed.
 Print Assumptions C06_store_atomic.
 
 Theorem C06_store_encode_error :
-  forall (hasher_ok : N -> bool) (hash : N -> bytes -> bytes) (codecs : N -> option codec)
-         (sk : skind) (w : wbeh) (st : storage) (lp : lproto) (v : dm) (c : codec),
-    codecs (lp_codec lp) = Some c ->
+  forall (hasher_ok : N -> bool) (hash : N -> bytes -> bytes) (encoders : N -> option codec)
+         (latch : bool) (sk : skind) (w : wbeh) (st : storage) (lp : lproto) (v : dm) (c : codec),
+    encoders (lp_codec lp) = Some c ->
     hasher_ok (lp_mhtype lp) = true ->
     w_open_err w = false ->
-    c_enc c v = None -> store hasher_ok hash codecs sk w st lp v = (sfail EEncode, st).
+    c_enc c v = None -> store hasher_ok hash encoders latch sk w st lp v = (sfail EEncode, st).
 Proof. exact store_encode_error. Qed.
 Print Assumptions C06_store_encode_error.
 
-(* Full store-side statement: a storage writer that fails during the encoder's output makes the
-   store fail and commit nothing. *)
-Definition C06_store_write_error_full : Prop :=
-  forall (hasher_ok : N -> bool) (hash : N -> bytes -> bytes) (codecs : N -> option codec)
-         (sk : skind) (w : wbeh) (st : storage) (lp : lproto) (v : dm) (c : codec)
-         (chunks : list bytes) (k : N),
-    codecs (lp_codec lp) = Some c ->
-    hasher_ok (lp_mhtype lp) = true ->
-    w_open_err w = false ->
+(* Whatever the storage writer does — sticky or transient failures, short writes, any per-Write
+   schedule — a store that gets as far as the committer (reports Ok, or the committer's own error)
+   has handed the writer exactly the encoder's output, returns the link ComputeLink returns, and
+   (when Ok) commits exactly that output under it.  Holds when Store has the write-error latch (the
+   repaired tree) for EVERY encoder, and without it for encoders that report failed writes. *)
+Theorem C06_store_commits_whole :
+  forall (hasher_ok : N -> bool) (hash : N -> bytes -> bytes) (encoders : N -> option codec)
+         (latch : bool) (sk : skind) (w : wbeh) (st : storage) (lp : lproto) (v : dm)
+         (c : codec) (chunks : list bytes) (s : sout) (st' : storage),
+    encoders (lp_codec lp) = Some c ->
     c_enc c v = Some chunks ->
-    w_cap w = Some k ->
-    k < lenN (concat chunks) -> store hasher_ok hash codecs sk w st lp v = (sfail EIo, st).
+    latch || negb (c_werr_ignored c) = true ->
+    store hasher_ok hash encoders latch sk w st lp v = (s, st') ->
+    so_status s = SOk \/ so_status s = SErr ECommit ->
+    s = {| so_status := so_status s; so_link := so_link (compute hasher_ok hash encoders lp v) |} /\
+    so_status (compute hasher_ok hash encoders lp v) = SOk /\
+    (so_status s = SOk ->
+     exists l : link, so_link s = Some l /\ st' = put sk st (skey sk l) (concat chunks)).
+Proof. exact store_commits_whole. Qed.
+Print Assumptions C06_store_commits_whole.
 
-(* It holds for every encoder that reports a failed write (dag-cbor, cbor, raw) ... *)
-Theorem C06_store_write_error_partial :
-  forall (hasher_ok : N -> bool) (hash : N -> bytes -> bytes) (codecs : N -> option codec)
+(* Full store-side statement for the capacity-limited (sticky) writer: running out of room during
+   the encoder's output makes the store fail and commit nothing. *)
+Definition C06_store_write_error_full (latch : bool) : Prop :=
+  forall (hasher_ok : N -> bool) (hash : N -> bytes -> bytes) (encoders : N -> option codec)
          (sk : skind) (w : wbeh) (st : storage) (lp : lproto) (v : dm) (c : codec)
          (chunks : list bytes) (k : N),
-    codecs (lp_codec lp) = Some c ->
+    encoders (lp_codec lp) = Some c ->
     hasher_ok (lp_mhtype lp) = true ->
     w_open_err w = false ->
-    c_werr_ignored c = false ->
     c_enc c v = Some chunks ->
     w_cap w = Some k ->
-    k < lenN (concat chunks) -> store hasher_ok hash codecs sk w st lp v = (sfail EIo, st).
-Proof. exact store_write_error_partial. Qed.
+    k < lenN (concat chunks) -> store hasher_ok hash encoders latch sk w st lp v = (sfail EIo, st).
+
+(* with the latch (repaired tree, fix 4c486a6) it holds for every encoder ... *)
+Theorem C06_store_write_error : C06_store_write_error_full true.
+Proof.
+  intros hasher_ok hash encoders sk w st lp v c chunks k C H O E K L.
+  exact (store_write_error hasher_ok hash encoders true sk w st lp v c chunks k C H O eq_refl E K L).
+Qed.
+Print Assumptions C06_store_write_error.
+
+(* ... without it, for every encoder that reports a failed write (dag-cbor, cbor, raw) ... *)
+Theorem C06_store_write_error_partial :
+  forall (hasher_ok : N -> bool) (hash : N -> bytes -> bytes) (encoders : N -> option codec)
+         (latch : bool) (sk : skind) (w : wbeh) (st : storage) (lp : lproto) (v : dm) (c : codec)
+         (chunks : list bytes) (k : N),
+    encoders (lp_codec lp) = Some c ->
+    hasher_ok (lp_mhtype lp) = true ->
+    w_open_err w = false ->
+    latch || negb (c_werr_ignored c) = true ->
+    c_enc c v = Some chunks ->
+    w_cap w = Some k ->
+    k < lenN (concat chunks) -> store hasher_ok hash encoders latch sk w st lp v = (sfail EIo, st).
+Proof. exact store_write_error. Qed.
 Print Assumptions C06_store_write_error_partial.
 
-(* ... and fails for an encoder that drops write errors, as refmt's JSON encoder (dag-json, json)
-   does on the pinned tree: the store reports success and commits the truncated block *)
+(* ... and fails without the latch for an encoder that drops write errors, as refmt's JSON encoder
+   (dag-json, json) does: on the pinned tree the store reports success and commits the truncated
+   block *)
 Theorem C06_store_write_error_refuted :
-  exists (codecs : N -> option codec) (w : wbeh) (lp : lproto) (v : dm) (s : sout) (st' : storage),
-    store toy_ok toy_hash codecs memstore_kind w [] lp v = (s, st') /\
+  exists (encoders : N -> option codec) (w : wbeh) (lp : lproto) (v : dm) (s : sout) (st' : storage),
+    store toy_ok toy_hash encoders false memstore_kind w [] lp v = (s, st') /\
     w_cap w = Some 1 /\
     (exists (c : codec) (chunks : list bytes),
-        codecs (lp_codec lp) = Some c /\ c_enc c v = Some chunks /\ 1 < lenN (concat chunks)) /\
+        encoders (lp_codec lp) = Some c /\ c_enc c v = Some chunks /\ 1 < lenN (concat chunks)) /\
     so_status s = SOk /\ st' <> [].
 Proof. exact store_write_error_refuted. Qed.
 Print Assumptions C06_store_write_error_refuted.
+
+(* a single failing Write anywhere in the schedule (later writes succeed): never Ok, nothing
+   committed — with the latch, or with an encoder that reports it *)
+Theorem C06_store_transient_write_error :
+  forall (hasher_ok : N -> bool) (hash : N -> bytes -> bytes) (encoders : N -> option codec)
+         (latch : bool) (sk : skind) (w : wbeh) (st : storage) (lp : lproto) (v : dm)
+         (c : codec) (pre : list bytes) (x : bytes) (post : list bytes),
+    encoders (lp_codec lp) = Some c ->
+    hasher_ok (lp_mhtype lp) = true ->
+    w_open_err w = false ->
+    latch || negb (c_werr_ignored c) = true ->
+    c_enc c v = Some (pre ++ x :: post) ->
+    w_cap w = None ->
+    nth_error (w_sched w) (length pre) = Some WFail ->
+    so_status (fst (store hasher_ok hash encoders latch sk w st lp v)) <> SOk /\
+    snd (store hasher_ok hash encoders latch sk w st lp v) = st.
+Proof. exact store_transient_write_error. Qed.
+Print Assumptions C06_store_transient_write_error.
+
+(* without the latch and with an encoder that ignores the failed write: success is reported for a
+   block with a hole, under a link that is not ComputeLink's *)
+Theorem C06_store_transient_refuted :
+  let encoders := fun _ : N => Some sloppy3_codec in
+  let w := {| w_open_err := false; w_cap := None; w_sched := [WOk; WFail]; w_commit_err := false |} in
+  exists (l : link) (st' : storage),
+    store toy_ok toy_hash encoders false memstore_kind w [] toy_lp DNull =
+    ({| so_status := SOk; so_link := Some l |}, st') /\
+    lookup st' (skey memstore_kind l) = Some [1; 3] /\
+    so_link (compute toy_ok toy_hash encoders toy_lp DNull) <> Some l.
+Proof. exact store_transient_refuted. Qed.
+Print Assumptions C06_store_transient_refuted.
 
 (* the codec law, for the codecs that are modelled concretely *)
 Theorem C06_dagcbor_consumes_all :
@@ -197,8 +259,8 @@ Print Assumptions C06_default_registry_law.
 (* the law cannot be dropped: a decoder that succeeds on a prefix makes Fill return a node for a
    block that does not hash to the link *)
 Theorem C06_sound_needs_consumes_all :
-  exists (codecs : N -> option codec) (l : link) (chunks : list bytes),
-    lo_status (fill toy_ok toy_hash codecs false (RStream chunks TEof) l) = SOk /\
+  exists (decoders : N -> option codec) (l : link) (chunks : list bytes),
+    lo_status (fill toy_ok toy_hash decoders false (RStream chunks TEof) l) = SOk /\
     verify toy_hash l (concat chunks) = VMismatch.
 Proof. exact sound_needs_consumes_all. Qed.
 Print Assumptions C06_sound_needs_consumes_all.
